@@ -44,6 +44,13 @@ SCENARIOS = [
 ]
 
 
+TOPLEVEL = [
+    "probe(); class K { #s = 1; static m(){ return eval('1') } [probe()](){ } static [probe()] = 2; static { probe() } } probe(); new K;",
+    "probe(); with ({a: 1}) { let blk = 1; var fn = () => blk; probe(); { let inner = 2; var g2 = () => inner; probe(); } } probe();",
+    "probe(); for (let i = 0; i < 2; i++) { let cap = () => i; probe(); try { probe(); } finally { probe(); } } L: { let z = 1; var h = () => z; probe(); }",
+]
+
+
 def run(chk, tier):
     wd = workdir("C03")
     thorough = tier == "thorough"
@@ -58,6 +65,8 @@ def run(chk, tier):
             base.append({"gen": p["gen"], "src": mjgen.print_js(p, probes=True)})
         for s in SCENARIOS:
             base.append({"gen": 0, "src": s})
+        for s in TOPLEVEL:
+            base.append({"gen": 1, "src": s})     # executed as the program itself (no f() call)
         # 1. fault-free pass: counts probe points and gives the reference log of the AFTER script
         jobs = [dict(b, id=i, fault="", at=0, after=AFTER) for i, b in enumerate(base)]
     with phase(chk, "count-probes"):
